@@ -735,6 +735,15 @@ func (b *TermBank) Int2Bv(x *Term, w int) *Term {
 	if x.op == OBv2Nat && x.args[0].sort.W <= w {
 		return b.ZExt(x.args[0], w)
 	}
+	if x.op == OIte {
+		return b.Ite(x.args[0], b.Int2Bv(x.args[1], w), b.Int2Bv(x.args[2], w))
+	}
+	if (x.op == OIntSub || x.op == OIntAdd) && x.args[1].IsConst() {
+		m := new(big.Int).Lsh(big.NewInt(1), uint(w))
+		if new(big.Int).Mod(x.args[1].bigv, m).Sign() == 0 {
+			return b.Int2Bv(x.args[0], w)
+		}
+	}
 	return b.mk(&Term{op: OInt2Bv, sort: Sort{SBV, w}, args: []*Term{x}, i1: w})
 }
 
